@@ -3,7 +3,7 @@
    what the checkers add is the resolution of the recorded type to a defined type, proved here to see through
    aliases (declared anywhere) around the single pointer strip. *)
 From Coq Require Import List String ZArith Bool.
-From GG Require Import Base.Strs Model.GoAst Model.Annots Model.Analyze Exec.
+From GG Require Import Base.Strs Model.GoAst Model.Annots Model.Analyze Exec Proofs.LayoutProofs Proofs.SpellProofs Proofs.SpellAnalyzeProofs.
 Import ListNotations.
 Local Open Scope string_scope.
 
@@ -41,6 +41,50 @@ Theorem C13_packageonly_alias_name :
     pkgo_obj_cand fs cur curname o declared_in pos = pkgo_type_cand fs cur curname tp tn pos.
 Proof. intros fs cur curname o declared_in pos tp tn Hk Ha Ht. unfold pkgo_obj_cand. rewrite Hk, Ha, Ht. reflexivity. Qed.
 
+(* THE WHOLE PACKAGE.  Type identity on the fragment: two recorded types are the same type when they are equal once every
+   alias name is removed, at every depth (same_type).  Everything the checkers ask of a recorded type is a function of
+   that identity ... *)
+Theorem C13_identity_decides :
+  forall a b, same_type a b ->
+    type_info a = type_info b /\ named_direct a = named_direct b /\ type_name a = type_name b.
+Proof. intros a b H. repeat split; [apply type_info_same|apply named_direct_same|apply type_name_same]; exact H. Qed.
+
+(* ... hence: rewrite the type recorded at EVERY node of EVERY file by any function psi that preserves identity (spell it
+   through an alias declared anywhere, remove such spellings, stack them): the candidates of the immutable and constructor
+   checkers and the diagnostics of the testonly and packageonly checkers are the same lists - same positions, same codes,
+   same messages, same order - for every facts set, every suppression function, every program *)
+Theorem C13_respelling_changes_nothing :
+  forall (psi : option ty -> option ty), (forall t, same_type (psi t) t) ->
+  forall fs cur cur_name sup files,
+    imm_candidates fs cur (map (rt_file psi) files) = imm_candidates fs cur files /\
+    ctor_candidates fs cur (map (rt_file psi) files) = ctor_candidates fs cur files /\
+    tonl_diags fs cur sup (map (rt_file psi) files) = tonl_diags fs cur sup files /\
+    pkgo_diags fs cur cur_name sup (map (rt_file psi) files) = pkgo_diags fs cur cur_name sup files.
+Proof.
+  intros psi H fs cur cur_name sup files. repeat split.
+  - apply imm_candidates_rt. exact H.
+  - apply ctor_candidates_rt. exact H.
+  - apply tonl_diags_rt. exact H.
+  - apply pkgo_diags_rt.
+Qed.
+
+(* END TO END: the whole per-package analysis - annotation reader (which never consults a recorded type), @ignore reader
+   (positions and comments only), @implements checker, the four AST checkers, suppression, the exported annotations -
+   returns the same result for a package and for any identity-preserving respelling of it, under every configuration and
+   every universe of imported facts *)
+Theorem C13_whole_analysis :
+  forall (psi : option ty -> option ty), (forall t, same_type (psi t) t) ->
+  forall cfg p all, x_analyze cfg (rt_pkg psi p) all = x_analyze cfg p all.
+Proof. intros psi H cfg p all. apply analyze_rt. exact H. Qed.
+
+(* two such rewritings: spelling everything through one more alias, and removing every alias *)
+Example C13_respellings_exist :
+  (forall t, same_type (option_map (TAlias "A") t) t) /\ (forall t, same_type (option_map strip t) t).
+Proof.
+  split; intros [t|]; unfold same_type; cbn [option_map strip]; try reflexivity.
+  f_equal. induction t as [p n|n r IH|e IH|s]; cbn [strip]; congruence.
+Qed.
+
 Example C13_nonvacuous :
   let T := TNamed (Some "a") "T" in
   map (fun t => type_info (Some t)) [T; TPtr T; TAlias "A" T; TPtr (TAlias "A" T); TAlias "P" (TPtr T); TAlias "B" (TAlias "A" T); TPtr (TPtr T); TOther "x"]
@@ -55,3 +99,6 @@ Print Assumptions C13_type_name_alias.
 Print Assumptions C13_pointer_or_value.
 Print Assumptions C13_any_alias_stack.
 Print Assumptions C13_packageonly_alias_name.
+Print Assumptions C13_identity_decides.
+Print Assumptions C13_respelling_changes_nothing.
+Print Assumptions C13_whole_analysis.
